@@ -12,7 +12,7 @@
        def defuzzify(self):
            if not self.enabled: return
            if not self.defuzzifier: raise ValueError(...)
-           value = self.defuzzifier.defuzzify(self.fuzzy, self.minimum, self.maximum)   # may raise
+           value = scalar(self.defuzzifier.defuzzify(self.fuzzy, self.minimum, self.maximum))   # may raise; scalar = np.asarray(., float)
            self.previous_value = np.take(self.value, -1).astype(float)                 # IndexError on an empty value
            if self.lock_previous:
                with np.nditer(value, op_flags=[["readwrite"]]) as iterator:             # ValueError on a zero-sized batch
@@ -27,9 +27,12 @@
        def clear(self):
            self.fuzzy.clear(); self.previous_value = nan; self.value = nan
 
-   Not modelled: the Python *kind* of the defuzzified value (ndarray / 0-d ndarray / numpy.float64 / float):
-   the code above needs a writable ndarray (finding F2) — that is the correspondence's business
-   (tools/props/C12.py); and batches of more than one dimension. *)
+   Not modelled: the Python *kind* of the defuzzified value (ndarray / 0-d ndarray / numpy.float64 / float).  The
+   loop and the masked assignment need a writable ndarray; since the repair of finding F2 the result is wrapped by
+   `scalar(...)`, before that a numpy.float64 result raised TypeError after previous_value was overwritten.  Kinds
+   are the correspondence's business (tools/props/C12.py re-runs one-element batches as 0-d array / numpy.float64 /
+   float and demands the same observations).  Also not modelled: batches of more than one dimension, and the
+   aliasing of the committed value with the array object returned by the defuzzifier (mutated in place). *)
 From Coq Require Import ZArith Bool List.
 From VF Require Import Num Core.
 Import ListNotations.
